@@ -19,7 +19,7 @@
 EXTENDS Naturals, Integers, Sequences, FiniteSets
 
 NULL == -1
-MovedFrom == -1          \* value the harness element type leaves in a moved-from object
+MovedFrom == -1          \* value the harness element type leaves in a moved-from object (= LifeOps!MOVED)
 
 \* ---- size_t values that do not fit TLC's integers: [big |-> TRUE, v |-> k] stands for SIZE_MAX - k (k small) ----
 Sz(v) == [big |-> FALSE, v |-> v]
@@ -48,15 +48,21 @@ AlignEff(al, size, off, space) ==
 
 \* ---- pointer_int_pair --------------------------------------------------------------------------------------
 \* state [p, i]: p = pointer value (element index, 0 = null pointer ... the harness maps), i = the small integer
-PipOps == {"ctor", "ctor_ptr", "set_pointer", "set_int", "set_ptr_and_int", "from_opaque", "copy"}
+\* low_*: the same setters on a pair whose spare low bit (IntBits < free bits: "allows the low bits to be used for
+\* something else") was set through set_from_opaque_value: set_pointer / set_int must preserve it ("Preserve all low
+\* bits", "Preserve all bits other than the ones we are updating"), set_ptr_and_int builds the word afresh
+LowOps == {"low_set_pointer", "low_set_int", "low_set_ptr_and_int"}
+PipOps == {"ctor", "ctor_ptr", "set_pointer", "set_int", "set_ptr_and_int", "from_opaque", "copy"} \cup LowOps
 PipPre(op, x, s, bits) == op \in PipOps /\ x.i >= 0 /\ x.i < 2 ^ bits
 PipEff(op, x, s) ==
     CASE op = "ctor" -> [p |-> x.p, i |-> x.i]
       [] op = "ctor_ptr" -> [p |-> x.p, i |-> 0]
-      [] op = "set_pointer" -> [p |-> x.p, i |-> s.i]            \* "Preserve all low bits, just update the pointer"
-      [] op = "set_int" -> [p |-> s.p, i |-> x.i]                \* "Preserve all bits other than the ones we are updating"
-      [] op = "set_ptr_and_int" -> [p |-> x.p, i |-> x.i]
+      [] op \in {"set_pointer", "low_set_pointer"} -> [p |-> x.p, i |-> s.i]            \* "Preserve all low bits, just update the pointer"
+      [] op \in {"set_int", "low_set_int"} -> [p |-> s.p, i |-> x.i]                \* "Preserve all bits other than the ones we are updating"
+      [] op \in {"set_ptr_and_int", "low_set_ptr_and_int"} -> [p |-> x.p, i |-> x.i]
       [] op \in {"from_opaque", "copy"} -> s                     \* get_from_opaque_value(get_opaque_value()) is the same pair
+\* is the stashed low bit still there afterwards?
+PipLowKept(op) == op \in {"low_set_pointer", "low_set_int"}
 
 \* ---- small_ptr -----------------------------------------------------------------------------------------------
 \* addresses are plain integers here (the harness never dereferences the fabricated ones)
@@ -113,6 +119,9 @@ Disjoint(o1, l1, o2, l2) == l1 = 0 \/ l2 = 0 \/ o1 + l1 <= o2 \/ o2 + l2 <= o1
 ReqBytes(n, tsize) == IF n.big THEN Sz(0) ELSE Sz(n.v * tsize)
 ReqHuge(n) == n.big
 
+\* allocate(0): "the return value is unspecified" ([allocator.requirements]); if it is a pointer it is still the
+\* allocator's own: aligned and not outside the buffer.  (Mem.tla issues a zero request only as the last of a history,
+\* because what it costs is unspecified too.)
 MonoSafe(ret, boff, bsize, hist, n, tsize, talign) ==
     \/ ret = NULL
     \/ /\ ~ReqHuge(n)                                         \* a request larger than the address space can never succeed
@@ -124,5 +133,6 @@ MonoSafe(ret, boff, bsize, hist, n, tsize, talign) ==
 MonoProgress(ret, boff, bsize, hist, n, tsize, talign) ==
     ret = NULL =>
         \/ ReqHuge(n)
+        \/ n.v = 0
         \/ LET hw == HighWater(hist, 1, boff) IN hw + Pad(talign, hw) + n.v * tsize > boff + bsize
 =========================================================================
